@@ -24,6 +24,8 @@ def state_set(dt, sym, gaps_as_missing):
     else:
         n = 10
         table = dict((str(i), [i]) for i in range(10))
+    if sym[0] == "{":
+        return set(int(ch) for ch in sym[1:-1])      # an uncertainty set written out in the source, e.g. {01}: a cell without a symbol
     if sym == "?":
         return set(range(n)) if gaps_as_missing else set(range(n + 1))
     if sym == "-":
@@ -75,7 +77,7 @@ class C16(Machine):
         self.name = name
 
     def gen(self, rng, tier):
-        dt = rng.choice(["dna", "dna", "standard"])
+        dt = rng.choice(["dna", "dna", "standard", "standard_multi"])
         n = rng.randint(3, 8)
         labs = gen.labels(rng, n, "plain")
         spec = gen.tree_spec(rng, labs, rng.choice(["binary", "caterpillar", "balanced"]), rng.choice(["none", "int"]))
@@ -83,6 +85,19 @@ class C16(Machine):
         mats = []
         for _ in range(rng.randint(2, 4)):
             nchar = rng.randint(1, 6)
+            if dt == "standard_multi":
+                # rows are lists of cells; some cells are uncertainty sets that have no symbol of their own; columns are often
+                # copies of one another up to such a cell (what a pattern-compressing implementation has to tell apart)
+                cells = ["0", "1", "0", "1", "2", "-", "?", "{01}", "{12}", "{02}", "{012}", "{13}"]
+                rows = dict((l, [rng.choice(cells[:5]) for _ in range(nchar)]) for l in labs)
+                for c in range(1, nchar):
+                    if rng.random() < 0.6:
+                        for l in labs:
+                            rows[l][c] = rows[l][c - 1]
+                for _ in range(rng.randint(1, 2 * nchar)):
+                    rows[rng.choice(labs)][rng.randrange(nchar)] = rng.choice(cells)
+                mats.append(rows)
+                continue
             mats.append(gen.sequences(rng, labs, nchar, syms, easy=rng.choice([0.5, 0.8, 0.95])))
         steps = []
         ops = ["score", "score", "score", "score", "down_pass_attr", "down_pass_noattr", "rotate", "reroot", "reroot_node", "score_fresh"]
@@ -104,7 +119,17 @@ class C16(Machine):
             tree.collapse_basal_bifurcation(set_as_unrooted_tree=True)
         cls = dendropy.DnaCharacterMatrix if dt == "dna" else dendropy.StandardCharacterMatrix
         rows_list = plan["initial"]["matrices"]
-        mats = [cls.from_dict(r, taxon_namespace=ns) for r in rows_list]
+        if dt == "standard_multi":
+            mats = []
+            for r in rows_list:
+                nchar = len(next(iter(r.values())))
+                text = "#NEXUS\nBEGIN DATA;\n  DIMENSIONS NTAX=%d NCHAR=%d;\n  FORMAT DATATYPE=STANDARD SYMBOLS=\"0123456789\" MISSING=? GAP=-;\n  MATRIX\n" % (len(r), nchar)
+                for l in cfg["labels"]:
+                    text += "    %s  %s\n" % (l, " ".join(r[l]))
+                text += "  ;\nEND;\n"
+                mats.append(dendropy.StandardCharacterMatrix.get(data=text, schema="nexus", taxon_namespace=ns))
+        else:
+            mats = [cls.from_dict(r, taxon_namespace=ns) for r in rows_list]
         scored = []
         for i, st in enumerate(plan["steps"]):
             rec.step_index = i
